@@ -31,7 +31,7 @@ Statement by statement:
     np.argsort(v)                      ->  argsort v, argsort a PARAMETER of the kernel (any function; the theorems ask
                                            it to return a permutation of the indices)
 In-place writes are accepted only into a local array bound by an arithmetic expression / np.repeat / np.zeros (a fresh
-array, not a view of an input, not an alias).  Anything else (another statement, operator, call, subscript, name,
+array, not a view of an input, not an alias) of which no view (reshape) has been taken.  Anything else (another statement, operator, call, subscript, name,
 decorator, signature, loop header, prelude or return shape) is a TranslationError naming file:line.
 The per-run obligations are in Proofs/ConfGenP.v (generated = Model/Confidence.v for ALL inputs) and Props/C12.v."""
 import ast
@@ -345,6 +345,8 @@ class Tr:
             fail(self.where(e), f"numpy call not supported: {ast.unparse(e)}")
         if isinstance(f, ast.Attribute) and not kw:
             t, ty = self.expr(f.value)
+            if f.attr == "reshape" and isinstance(f.value, ast.Name):
+                self.fresh.discard(f.value.id)      # the result is a view: no in-place write into the base any more
             if f.attr == "reshape" and len(e.args) == 1 and ty in ("V", "BV"):
                 r, c = self.shape_tuple(e.args[0], 2)
                 mty = "FM" if ty == "V" else "BM"
@@ -883,7 +885,9 @@ if self._normalization:
 ambiguity = 1 - ambiguity
 disp, cv = self.allocate_confidence_map(self._indicator, ambiguity, disp, cv)
 """,
-    "Risk": ORIENT + """
+    "Risk": """
+ambiguity_ = cost_volume_confidence.AbstractCostVolumeConfidence(**{"confidence_method": "ambiguity"})
+""" + ORIENT + """
 _, sampled_ambiguity = ambiguity_.compute_ambiguity_and_sampled_ambiguity(cost_volume, self._eta_min, self._eta_max, self._eta_step)
 risk_max, risk_min = self.compute_risk(cost_volume, sampled_ambiguity, self._eta_min, self._eta_max, self._eta_step)
 """,
@@ -897,7 +901,23 @@ interval_bound_inf, interval_bound_sup = self.compute_interval_bounds(cv["cost_v
 }
 
 
+REGISTERED = {"Ambiguity": "ambiguity", "Risk": "risk", "IntervalBounds": "interval_bounds"}
+
+
+def check_registration(path, tree, cls_name):
+    """the class is the one registered under its method name (what AbstractCostVolumeConfidence(**cfg) instantiates)"""
+    want = f'cost_volume_confidence.AbstractCostVolumeConfidence.register_subclass("{REGISTERED[cls_name]}")'
+    cls = [n for n in tree.body if isinstance(n, ast.ClassDef) and n.name == cls_name][0]
+    if [ast.dump(d) for d in cls.decorator_list] != [ast.dump(ast.parse(want).body[0].value)]:
+        fail(f"{path}:{cls.lineno}", f"class {cls_name} is not decorated with exactly @{want}")
+    others = [n for n in ast.walk(tree) if isinstance(n, ast.Call) and isinstance(n.func, ast.Attribute)
+              and n.func.attr == "register_subclass"]
+    if len(others) != 1:
+        fail(path, "more than one register_subclass in the module")
+
+
 def check_call_site(path, tree, cls_name):
+    check_registration(path, tree, cls_name)
     """confidence_prediction contains, once each and in this order, the statements of CALLS[cls_name]; the variables
     they set are not assigned anywhere else in the method"""
     cls = [n for n in tree.body if isinstance(n, ast.ClassDef) and n.name == cls_name][0]
